@@ -48,7 +48,7 @@ def directed(rng: random.Random) -> dict:
                        "leak_loop", "symbol_kinds", "named_in_named", "macro_local_vs_outer", "shadow_unsized", "block_if_label", "named_in_loop", "named_in_macro",
                        "const_shadowed_by_later_inner", "symbol_kinds_unsized", "parameter_names_at_call_site", "application_expanding_to_nothing", "namespace_reopened", "self_qualified",
                        "same_scope_name_nested_later", "leak_named_scope_in_anonymous", "chain_through_empty_scopes", "assign_in_loop_shadows_outer",
-                       "argument_names_later_nearer_label", "block_argument_defines_name_read_by_body", "exported_member_over_shadowed_name"])
+                       "argument_names_later_nearer_label", "block_argument_defines_name_read_by_body", "exported_member_over_shadowed_name", "argument_named_like_something_of_the_macro"])
     expect_reject = False
     nop = {"k": "ins", "m": "nop", "shape": "imp", "sz": "", "e": None}
     if kind == "shadow_chain":
@@ -105,6 +105,15 @@ def directed(rng: random.Random) -> dict:
                  {"k": "block", "b": [{"k": "sym", "n": "kk", "e": E(7)}, ref("kk"), {"k": "data", "d": "db", "es": [E("kk")]},
                                       {"k": "block", "b": [ref("kk"), {"k": "assign", "n": "kk", "e": E(9)}, ref("kk")]}, ref("kk")]},
                  ref("kk"), {"k": "data", "d": "db", "es": [E("kk"), E("ss")]}]
+    elif kind == "argument_named_like_something_of_the_macro":
+        # an argument that has to wait for a label of the call site and is spelled like another parameter (bound at once) or like a label private
+        # to the macro body: it means the call site's name
+        body += [{"k": "macro", "n": "storeq", "ps": ["valueq", "targetq"], "b": [{"k": "ins", "m": "lda", "shape": "imm", "sz": "w", "e": E("valueq")},
+                                                                                 {"k": "ins", "m": "sta", "shape": "dir", "sz": "w", "e": E("targetq")}]},
+                 {"k": "macro", "n": "waitq", "ps": ["ptgt"], "b": [lab("xx"), nop, {"k": "ins", "m": "jmp", "shape": "dir", "sz": "w", "e": E("ptgt")}, dl("xx")]},
+                 lab("xx"), nop, {"k": "call", "n": "storeq", "as": [E(0x10), E("valueq")]}, {"k": "call", "n": "waitq", "as": [E("xx")]},
+                 {"k": "block", "b": [{"k": "call", "n": "waitq", "as": [E("xx", "+", 1)]}, {"k": "call", "n": "storeq", "as": [E(0x20), E("valueq", "+", 2)]}]},
+                 lab("valueq"), nop, dl("valueq", "xx")]
     elif kind == "exported_member_over_shadowed_name":
         # a member of a named scope defined over a name that the scope itself defines further down (and an outer scope defined before): the
         # value published as scope.member is the one the member has inside the scope
